@@ -830,15 +830,11 @@ impl<'a, F: FeatureProvider, V: VariationInfo> CompilationCtx<'a, F, V> {
                     }
                 };
                 let lookup = self.ensure_current_lookup_type(Kind::GsubType6, node.range());
-                let mut to_return = None;
-                for target in sequence_enumerator(&target) {
-                    to_return = Some(
-                        lookup
-                            .as_gsub_contextual()
-                            .add_anon_gsub_type_4(target, replacement),
-                    );
-                }
-                to_return
+                Some(
+                    lookup
+                        .as_gsub_contextual()
+                        .add_anon_gsub_type_4(sequence_enumerator(&target), replacement),
+                )
             } else {
                 let target = input.items().next().unwrap().target();
                 let arity = rule.replacements().count();
@@ -880,23 +876,22 @@ impl<'a, F: FeatureProvider, V: VariationInfo> CompilationCtx<'a, F, V> {
                     }
                     if targets.iter().next().is_some() {
                         let lookup = self.ensure_current_lookup_type(Kind::GsubType6, node.range());
-                        let mut lookup_id = None;
-                        for (i, target) in targets.iter().enumerate() {
-                            let replacement = replacements
-                                .iter()
-                                .filter_map(|r| match r {
-                                    GlyphOrClass::Glyph(gid) => Some(*gid),
-                                    GlyphOrClass::Class(cls) => cls.items().get(i).copied(),
-                                    GlyphOrClass::Null => None,
-                                })
-                                .collect();
-                            lookup_id = Some(
-                                lookup
-                                    .as_gsub_contextual()
-                                    .add_anon_gsub_type_2(target, replacement),
-                            );
-                        }
-                        lookup_id
+                        let rules = targets
+                            .iter()
+                            .enumerate()
+                            .map(|(i, target)| {
+                                let replacement = replacements
+                                    .iter()
+                                    .filter_map(|r| match r {
+                                        GlyphOrClass::Glyph(gid) => Some(*gid),
+                                        GlyphOrClass::Class(cls) => cls.items().get(i).copied(),
+                                        GlyphOrClass::Null => None,
+                                    })
+                                    .collect();
+                                (target, replacement)
+                            })
+                            .collect();
+                        Some(lookup.as_gsub_contextual().add_anon_gsub_type_2(rules))
                     } else {
                         None
                     }
